@@ -170,7 +170,8 @@ class UnitStore(object):
         if quantity.units == self._registry.dimensionless:
             definition = UnitDefinition(qname, '', (), ScaleConverter(quantity.to(self._registry.dimensionless).magnitude))
         else:
-            definition = qname + '=' + expression
+            # Define from the parsed quantity: pint cannot resolve 'dimensionless' inside a definition string
+            definition = UnitDefinition(qname, '', (), ScaleConverter(quantity.magnitude), quantity._units)
 
         # Add to registry
         self._registry.define(definition)
